@@ -197,6 +197,19 @@ class Interp:
             shp = [1, -1] + [1] * (x.ndim - 2)
             y = scale.reshape(shp) * (x - cm.reshape(shp)) / np.sqrt(cv.reshape(shp) + eps) + b.reshape(shp)
             return [y.astype(f32), (mean * mom + cm * (1 - mom)).astype(f32), (var * mom + cv * (1 - mom)).astype(f32)]
+        if op == "LayerNormalization":
+            x, scale = ins[0], ins[1]
+            bias = ins[2] if len(ins) > 2 and ins[2] is not None else None
+            axis = int(attrs.get("axis", -1))
+            eps = float(np.float32(attrs.get("epsilon", 1e-5)))
+            axes = tuple(range(axis % x.ndim, x.ndim))
+            mean = x.mean(axis=axes, keepdims=True)
+            var = ((x - mean) ** 2).mean(axis=axes, keepdims=True)
+            inv = 1.0 / np.sqrt(var + eps)
+            y = (x - mean) * inv * scale
+            if bias is not None:
+                y = y + bias
+            return [y.astype(f32), mean.astype(f32), inv.astype(f32)]
         raise EvalError(f"operator {op} not in the interpreter's alphabet")
 
 
